@@ -9,7 +9,7 @@
    the graph into the issuer node of the edge before it ([nlink]: that edge is
    not a root, the (subject, key) of the new edge is not yet in the chain,
    fewer than 9 certificates so far, canAddToChain admits the certificate), and
-   the last edge is a root. *)
+   the last edge is a root.  The own issuer of the final root edge plays no role. *)
 From Coq Require Import List NArith ZArith Bool Arith.
 From Verif Require Import Harness AbsCertG.
 From VerifModel Require Import C10 C11 C11Async.
@@ -20,46 +20,43 @@ Import ListNotations.
 Theorem C11_walk_sound : forall ops c ch,
   let g := state_after empty_graph ops in
   In ch (walk g c) -> exists p, permitted g c p /\ ch = map e_cert p.
-Proof. exact (fun ops => walk_sound _ (ginv_history ops)). Qed.
+Proof. exact (fun ops => walk_sound _ (ginv_history ops) (rinv_history ops)). Qed.
 Print Assumptions C11_walk_sound.
 
-(* FULL STATEMENT (completeness): forall p, permitted g c p -> In (map e_cert p) (walk g c).
-   The faithful model REFUTES it in two classes of inputs (C11_complete_refuted_* below;
-   both reproduced on the implementation and listed in known_findings.txt).  Proved:
-   completeness for every permitted path whose final (root) edge has an issuer node that
-   is not the (subject, key) of an earlier edge of the path ([root_issuer_ok]); paths that
-   consist of the start edge alone are not restricted. *)
-Theorem C11_walk_complete_partial : forall ops c p,
+(* completeness: every permitted path is returned *)
+Theorem C11_walk_complete : forall ops c p,
   let g := state_after empty_graph ops in
-  permitted g c p -> root_issuer_ok g c p -> In (map e_cert p) (walk g c).
-Proof. exact (fun ops => walk_complete_partial _ (ginv_history ops)). Qed.
-Print Assumptions C11_walk_complete_partial.
+  permitted g c p -> In (map e_cert p) (walk g c).
+Proof. exact (fun ops => walk_complete _ (ginv_history ops) (rinv_history ops)). Qed.
+Print Assumptions C11_walk_complete.
 
-Theorem C11_complete_refuted_root_issuer_unknown :
+(* the two classes of permitted paths the walk missed before repair: a root certificate whose own
+   issuer is not in the graph, and a root certificate whose own issuer occurs earlier in the chain *)
+Theorem C11_root_with_unknown_issuer_is_found :
   let r := mkCert 0 1 9 1 true true (-1) 0 9 [] in
   let l := mkCert 1 3 1 4 false false 0 0 9 [1%N] in
   let g := state_after empty_graph [AddRoot r; AddCert l] in
-  permitted g l [mkEdge l (Some (1, 1)%N) (3, 4)%N false; mkEdge r None (1, 1)%N true] /\ walk g l = [].
-Proof. exact complete_refuted_unknown_issuer. Qed.
-Print Assumptions C11_complete_refuted_root_issuer_unknown.
+  walk g l = [[l; r]].
+Proof. exact root_with_unknown_issuer_example. Qed.
+Print Assumptions C11_root_with_unknown_issuer_is_found.
 
-Theorem C11_complete_refuted_root_issuer_in_chain :
+Theorem C11_root_with_issuer_in_chain_is_found :
   let ab := mkCert 0 1 2 1 true true (-1) 0 9 [2%N] in
   let ba := mkCert 1 2 1 2 true true (-1) 0 9 [1%N] in
   let g := state_after empty_graph [AddCert ab; AddRoot ba] in
-  permitted g ab [mkEdge ab (Some (2, 2)%N) (1, 1)%N false; mkEdge ba (Some (1, 1)%N) (2, 2)%N true] /\ walk g ab = [].
-Proof. exact complete_refuted_issuer_in_chain. Qed.
-Print Assumptions C11_complete_refuted_root_issuer_in_chain.
+  walk g ab = [[ab; ba]].
+Proof. exact root_with_issuer_in_chain_example. Qed.
+Print Assumptions C11_root_with_issuer_in_chain_is_found.
 
 (* no chain is returned twice *)
 Theorem C11_walk_nodup : forall ops c, NoDup (walk (state_after empty_graph ops) c).
-Proof. exact (fun ops c => walk_nodup _ c (ginv_history ops)). Qed.
+Proof. exact (fun ops c => walk_nodup _ c (ginv_history ops) (rinv_history ops)). Qed.
 Print Assumptions C11_walk_nodup.
 
 (* at most maxIntermediateCount = 9 certificates *)
 Theorem C11_walk_length_bound : forall ops c ch,
   In ch (walk (state_after empty_graph ops) c) -> 1 <= length ch <= 9.
-Proof. exact (fun ops => walk_length_bound _ (ginv_history ops)). Qed.
+Proof. exact (fun ops => walk_length_bound _ (ginv_history ops) (rinv_history ops)). Qed.
 Print Assumptions C11_walk_length_bound.
 
 (* what a returned chain looks like, in terms of certificates: it starts at the
@@ -78,7 +75,7 @@ Theorem C11_walk_chain_properties : forall ops c ch,
   (forall s1 x s2, ch = s1 ++ x :: s2 -> s1 <> [] ->
      (s2 <> [] -> c_bcv x = true /\ c_ca x = true) /\
      (c_bcv x = true -> (0 <= c_mpl x)%Z -> (Z.of_nat (length s1) - 1 <= c_mpl x)%Z)).
-Proof. exact (fun ops => walk_chain_properties _ (ginv_history ops)). Qed.
+Proof. exact (fun ops => walk_chain_properties _ (ginv_history ops) (rinv_history ops)). Qed.
 Print Assumptions C11_walk_chain_properties.
 
 (* the walk stops at the first root edge: exactly the last edge of a returned chain is a root *)
@@ -86,7 +83,7 @@ Theorem C11_walk_stops_at_first_root : forall ops c ch,
   let g := state_after empty_graph ops in
   In ch (walk g c) ->
   exists p, ch = map e_cert p /\ forall s1 x s2, p = s1 ++ x :: s2 -> (e_root x = true <-> s2 = []).
-Proof. exact (fun ops => walk_root_last _ (ginv_history ops)). Qed.
+Proof. exact (fun ops => walk_root_last _ (ginv_history ops) (rinv_history ops)). Qed.
 Print Assumptions C11_walk_stops_at_first_root.
 
 (* DESIGN §8 row 11 after repair f1334b8: nothing from the self-signed non-root S, one chain for the leaf *)
